@@ -320,8 +320,16 @@ impl std::fmt::Display for FatRec {
         write!(f, "fat{}", self.0[0])
     }
 }
-#[derive(Clone, Debug, PartialEq, Eq, Hash)]
+/// Its `Hash` is coarser than its `Eq` as well (only the second field is hashed, like a spec
+/// hashed by its version bounds but not its build string): two different version sets may
+/// share a hash and must still get different ids.
+#[derive(Clone, Debug, PartialEq, Eq)]
 pub struct FatVs(pub [u64; 12], pub u32);
+impl std::hash::Hash for FatVs {
+    fn hash<H: std::hash::Hasher>(&self, h: &mut H) {
+        self.1.hash(h)
+    }
+}
 impl VersionSet for FatVs {
     type V = FatRec;
 }
@@ -802,7 +810,7 @@ impl Property for C18 {
         1500
     }
     fn rule(&self) -> String {
-        "tape -> history of intern_string / intern_package_name / lookup_package_name / intern_version_set / intern_solvable / intern_version_set_union / resolve_* calls on a Pool, with values from a small alphabet (frequent re-interning) and fresh values (arenas cross several 128-element chunks, maps rehash), interpreted against HashMap/Vec reference models: equal values share ids, new values get the next dense id, solvable and union ids are always fresh and dense, resolve/lookup return exactly what was interned; REFERENCES (&str, &Name, &VersionSet, &Solvable) obtained from the pool are held across all later insertions and must keep their address and contents. Stage main uses Pool<Vs(u32),String> with u32 records and short strings; stage fat uses 100..160-byte version sets and records, strings of 64..200 bytes that share long prefixes, and a package-name type whose Hash is coarser than its Eq (legal; the pool must still tell such names apart). Stage bulk ends histories with one or two single-kind phases of 256..12000 fresh items (one arena then spans up to ~90 chunks and several growth steps of its chunk table) and interns unions re-entrantly from inside the exact-size member iterator of another union (inner id first, both dense, both resolvable). Non-trivial: the history crosses >=2 chunk boundaries with >=10 references held across them. Distinct = distinct hash of the history.".into()
+        "tape -> history of intern_string / intern_package_name / lookup_package_name / intern_version_set / intern_solvable / intern_version_set_union / resolve_* calls on a Pool, with values from a small alphabet (frequent re-interning) and fresh values (arenas cross several 128-element chunks, maps rehash), interpreted against HashMap/Vec reference models: equal values share ids, new values get the next dense id, solvable and union ids are always fresh and dense, resolve/lookup return exactly what was interned; REFERENCES (&str, &Name, &VersionSet, &Solvable) obtained from the pool are held across all later insertions and must keep their address and contents. Stage main uses Pool<Vs(u32),String> with u32 records and short strings; stage fat uses 100..160-byte version sets and records, strings of 64..200 bytes that share long prefixes, and package-name and version-set types whose Hash is coarser than their Eq (legal; the pool must still tell such values apart). Stage bulk ends histories with one or two single-kind phases of 256..12000 fresh items (one arena then spans up to ~90 chunks and several growth steps of its chunk table) and interns unions re-entrantly from inside the exact-size member iterator of another union (inner id first, both dense, both resolvable). Non-trivial: the history crosses >=2 chunk boundaries with >=10 references held across them. Distinct = distinct hash of the history.".into()
     }
     fn describe(&self, tape: &[u16]) -> String {
         let ops = self.decode(tape);
